@@ -4,7 +4,7 @@
    separately in Ops/DFTEngines.v.  DCT / DWT / MatrixMult.inv / explicit '/'
    are external oracles: checked on the implementation only (harness/c08.py,
    Gram matrix and round trips evaluated in Coq). *)
-From PV Require Import DFTEngines IndexOps.
+From PV Require Import DFTEngines IndexOps MatT.
 From Coq Require Import ZArith.
 From PV Require Import GaussQc GaussField.
 Local Open Scope R_scope.
@@ -102,11 +102,10 @@ Print Assumptions C08_fft_example.
 (* real=True: half spectrum with sqrt(2) on bins 1..(nfft-1)/2; forward and
    adjoint models (fft.py, real branch; C2R ignores Im of the zero / Nyquist
    bins) are an adjoint pair for the REAL inner product, for every w and N.
-   _partial: only the adjoint identity is proved; the real-input isometry
-   radj (rfwd x) = x (needs the Hermitian-symmetry reindexing of the full
-   spectrum) is NOT proved here - it is covered by the round trips run on the
-   implementation.  s2*s2 = 2 has no exact instance among the executable
-   rings (sqrt 2 is irrational): the hypothesis is met in the real numbers. *)
+   _partial in name only for continuity: the real-input inversion / isometry is
+   proved below (C08_rfft_inversion, C08_rfft_div_inverts, C08_rfft_unitary_ortho).
+   s2*s2 = 2 has no exact instance among the executable rings (sqrt 2 is
+   irrational): the hypothesis is met in the real numbers. *)
 Theorem C08_rfft_adjoint_partial :
   forall (F : FieldS) (w : F) (N : nat) (s2 : F),
     s2 * s2 = 1 + 1 -> conj F s2 = s2 -> (1 + 1 : F) <> 0 ->
@@ -114,6 +113,110 @@ Theorem C08_rfft_adjoint_partial :
       1 / (1 + 1) * re2 F (dot F (rfwd F w N s2 x) y) = dotu F x (radj F w N s2 (length x) y).
 Proof. exact rfft_adjoint. Qed.
 Print Assumptions C08_rfft_adjoint_partial.
+
+(* real=True, REAL input (vconj x = x), zero padding: the C2R model applied to the rescaled
+   half spectrum returns N . x — Hermitian symmetry of the spectrum of a real vector, even and
+   odd N, s2*s2 = 2 *)
+Theorem C08_rfft_inversion :
+  forall (F : FieldS) (w : F) (N : nat) (s2 : F),
+    s2 * s2 = 1 + 1 -> (1 + 1 : F) <> 0 -> principal_root F w N ->
+    forall x : list F, vconj F x = x -> (length x <= N)%nat -> 0 < N ->
+      radj F w N s2 (length x) (rfwd F w N s2 x) = vscale F (of_nat F N) x.
+Proof. intros F w N s2 H1 H2 (Hp & Hu & Ho). exact (rfft_inversion F w N s2 H1 H2 Hp Hu Ho). Qed.
+Print Assumptions C08_rfft_inversion.
+
+(* the real=True branch of _FFT_numpy / _FFT_scipy with norms and both shifts: '/' inverts for
+   EVERY norm and Op^H Op = id for 'ortho', real input, n <= nfft *)
+Theorem C08_rfft_div_inverts :
+  forall (F : FieldS) (w : F) (N : nat) (s2 sq : F),
+    s2 * s2 = 1 + 1 -> (1 + 1 : F) <> 0 -> fft_setting F w N sq ->
+    forall (c : fcfg) (x : list F), vconj F x = x -> length x = c_n c -> (c_n c <= N)%nat -> 0 < N ->
+      rdiv_np F w N s2 sq c (rfwd_np F w N s2 sq c x) = x.
+Proof. intros F w N s2 sq H1 H2 ((Hp & Hu & Ho) & Hn & Hs & Hr).
+  exact (rfft_np_div_inverts F w N s2 sq H1 H2 Hp Hu Ho Hn Hs Hr). Qed.
+Print Assumptions C08_rfft_div_inverts.
+Theorem C08_rfft_unitary_ortho :
+  forall (F : FieldS) (w : F) (N : nat) (s2 sq : F),
+    s2 * s2 = 1 + 1 -> (1 + 1 : F) <> 0 -> fft_setting F w N sq ->
+    forall (c : fcfg) (x : list F), c_norm c = Ortho -> vconj F x = x -> length x = c_n c -> (c_n c <= N)%nat -> 0 < N ->
+      radj_np F w N s2 sq c (rfwd_np F w N s2 sq c x) = x.
+Proof. intros F w N s2 sq H1 H2 ((Hp & Hu & Ho) & Hn & Hs & Hr).
+  exact (rfft_np_unitary_ortho F w N s2 sq H1 H2 Hp Hu Ho Hn Hs Hr). Qed.
+Print Assumptions C08_rfft_unitary_ortho.
+
+(* ---- FFT2D / FFTND with two transformed axes (fft2d.py; fftnd.py places scale, crop and
+   shifts identically): 1-D model lifted along the columns (axis 0) and the rows (axis 1) of an
+   n0 x n1 array; scale np.prod(nffts); crop after the full inverse transform; shifts on either
+   axis before / after.  '/' inverts for every norm, Op^H Op = id for ortho, nffts >= dims on
+   both axes; numpy and scipy engines agree (C05). ---- *)
+Theorem C08_fft2d_div_inverts :
+  forall (F : FieldS) (w0 w1 : F) (N0 N1 : nat) (sqP : F),
+    principal_root F w0 N0 -> principal_root F w1 N1 ->
+    of_nat F (N0 * N1) <> 0 -> sqP * sqP = 1 / of_nat F (N0 * N1) ->
+    forall (c : cfg2) (X : list (list F)), wfM F (d_n1 c) X -> length X = d_n0 c ->
+      (d_n0 c <= N0)%nat -> (d_n1 c <= N1)%nat ->
+      div2_numpy F w0 w1 N0 N1 sqP c (fwd2_numpy F w0 w1 N0 N1 sqP c X) = X /\
+      div2_scipy F w0 w1 N0 N1 sqP c (fwd2_scipy F w0 w1 N0 N1 sqP c X) = X.
+Proof. intros F w0 w1 N0 N1 sqP (_ & Hu0 & Ho0) (_ & Hu1 & Ho1) Hn Hs.
+  exact (fft2_div_inverts F w0 w1 N0 N1 Hu0 Ho0 Hu1 Ho1 Hn sqP Hs). Qed.
+Print Assumptions C08_fft2d_div_inverts.
+Theorem C08_fft2d_unitary_ortho :
+  forall (F : FieldS) (w0 w1 : F) (N0 N1 : nat) (sqP : F),
+    principal_root F w0 N0 -> principal_root F w1 N1 ->
+    of_nat F (N0 * N1) <> 0 -> sqP * sqP = 1 / of_nat F (N0 * N1) ->
+    forall (c : cfg2) (X : list (list F)), d_norm c = Ortho -> wfM F (d_n1 c) X -> length X = d_n0 c ->
+      (d_n0 c <= N0)%nat -> (d_n1 c <= N1)%nat ->
+      adj2_numpy F w0 w1 N0 N1 sqP c (fwd2_numpy F w0 w1 N0 N1 sqP c X) = X /\
+      adj2_scipy F w0 w1 N0 N1 sqP c (fwd2_scipy F w0 w1 N0 N1 sqP c X) = X.
+Proof. intros F w0 w1 N0 N1 sqP (_ & Hu0 & Ho0) (_ & Hu1 & Ho1) Hn Hs.
+  exact (fft2_unitary_ortho F w0 w1 N0 N1 Hu0 Ho0 Hu1 Ho1 Hn sqP Hs). Qed.
+Print Assumptions C08_fft2d_unitary_ortho.
+(* C05: numpy and scipy 2-D engines are the same operator (forward, adjoint, '/') *)
+Theorem C08_fft2d_engines_agree :
+  forall (F : FieldS) (w0 w1 : F) (N0 N1 : nat) (sqP : F), of_nat F (N0 * N1) <> 0 ->
+    forall (c : cfg2) (X Y : list (list F)),
+      fwd2_numpy F w0 w1 N0 N1 sqP c X = fwd2_scipy F w0 w1 N0 N1 sqP c X /\
+      adj2_numpy F w0 w1 N0 N1 sqP c Y = adj2_scipy F w0 w1 N0 N1 sqP c Y /\
+      div2_numpy F w0 w1 N0 N1 sqP c Y = div2_scipy F w0 w1 N0 N1 sqP c Y.
+Proof. intros F w0 w1 N0 N1 sqP Hn. exact (fft2_engines_agree F w0 w1 N0 N1 Hn sqP). Qed.
+Print Assumptions C08_fft2d_engines_agree.
+(* FFTND on a 3-D array with axes = (1, 2): the leading axis is a batch axis *)
+Theorem C08_fftnd_batch_div_inverts :
+  forall (F : FieldS) (w0 w1 : F) (N0 N1 : nat) (sqP : F),
+    principal_root F w0 N0 -> principal_root F w1 N1 ->
+    of_nat F (N0 * N1) <> 0 -> sqP * sqP = 1 / of_nat F (N0 * N1) ->
+    forall (c : cfg2) (Xs : list (list (list F))),
+      Forall (fun X => wfM F (d_n1 c) X /\ length X = d_n0 c) Xs -> (d_n0 c <= N0)%nat -> (d_n1 c <= N1)%nat ->
+      map (div2_numpy F w0 w1 N0 N1 sqP c) (map (fwd2_numpy F w0 w1 N0 N1 sqP c) Xs) = Xs /\
+      map (div2_scipy F w0 w1 N0 N1 sqP c) (map (fwd2_scipy F w0 w1 N0 N1 sqP c) Xs) = Xs.
+Proof. intros F w0 w1 N0 N1 sqP (_ & Hu0 & Ho0) (_ & Hu1 & Ho1) Hn Hs.
+  exact (fft2_batch_div_inverts F w0 w1 N0 N1 Hu0 Ho0 Hu1 Ho1 Hn sqP Hs). Qed.
+Print Assumptions C08_fftnd_batch_div_inverts.
+(* non-vacuity: N0 = 4 (w = -i), N1 = 2 (w = -1): sqrt(1/8) is irrational, so ortho is witnessed
+   with N0 = N1 = 4, sqP = 1/4; a 3 x 2 Gaussian-integer array, zero padded to 4 x 4, shifts on *)
+Definition ex_X : list (list GF) := [[gi 1 0; gi 2 1]; [gi 0 (-1); gi 3 0]; [gi (-2) 2; gi 1 1]].
+Definition quarter : G := (Qcanon.Q2Qc (QArith_base.Qmake 1 4), Qcanon.Q2Qc (QArith_base.Qmake 0 1)).
+Example C08_fft2d_example :
+  principal_root GF w4 4 /\ of_nat GF (4 * 4) <> g0 /\ geqb (gmul quarter quarter) (gdiv g1 (of_nat GF (4 * 4))) = true /\
+  let c nm := {| d_norm := nm; d_n0 := 3; d_n1 := 2; d_sb0 := true; d_sb1 := false; d_sa0 := false; d_sa1 := true |} in
+  forallb (fun nm => forallb (fun p => gveqb (fst p) (snd p))
+     (combine (div2_scipy GF w4 w4 4 4 quarter (c nm) (fwd2_numpy GF w4 w4 4 4 quarter (c nm) ex_X)) ex_X))
+     [Ortho; NoneN; OneOverN] = true /\
+  (* exactly what pylops FFT2D((3,2), nffts=(4,4), norm='none', ifftshift_before=(True,False),
+     fftshift_after=(False,True)) returns on this array *)
+  forallb (fun p => gveqb (fst p) (snd p)) (combine (fwd2_numpy GF w4 w4 4 4 quarter (c NoneN) ex_X)
+    [[gi (-7) (-1); gi (-3) 7; gi 5 3; gi 1 (-5)]; [gi (-1) 3; gi 3 3; gi 3 (-1); gi (-1) (-1)];
+     [gi (-1) (-3); gi 3 1; gi 7 (-3); gi 3 (-7)]; [gi (-3) (-3); gi (-3) (-3); gi (-3) (-3); gi (-3) (-3)]]) = true /\
+  length (fwd2_numpy GF w4 w4 4 4 quarter (c NoneN) ex_X) = 4%nat.
+Proof. split; [exact root4|]. split.
+  - intros E; apply (f_equal (fun a => geqb a g0)) in E; vm_compute in E; discriminate.
+  - vm_compute. repeat split. Qed.
+Print Assumptions C08_fft2d_example.
+(* Transpose of a 2-D array: the adjoint (transpose back) is the inverse *)
+Theorem C08_transpose2d_inverse :
+  forall (R : CRing) n (M : list (list R)), wfM R n M -> transpose R (length M) (transpose R n M) = M.
+Proof. exact MatT.transpose_involutive. Qed.
+Print Assumptions C08_transpose2d_inverse.
 
 (* shifts: inverse and adjoint pairs *)
 Theorem C08_shift_inverse :
